@@ -70,7 +70,9 @@ Fixpoint extract_lines (lines : list str) (nameU : str) (value : str) (inh : boo
 Definition extract_header (raw name : str) : str :=
   extract_lines (split_byte raw LF) (to_upper name) [] false.
 
-(** ---- parseAddressList ([None] = the Go slice expression panics) ---- *)
+(** ---- parseAddressList ([None] = the Go slice expression panics; since fix
+    e2cd37d the slice bounds are always ordered; regression example
+    [c13_address_stray_gt] in Properties/C13.v) ---- *)
 Definition split_at_first (s : str) (c : ascii) : str * str :=
   match index_byte s c with
   | Some i => (firstn i s, skipn (S i) s)
@@ -78,17 +80,20 @@ Definition split_at_first (s : str) (c : ascii) : str * str :=
   end.
 
 Definition addr_struct (addr : str) : option str :=
+  (* e2cd37d: the closing ">" is searched in addr[start:], after the "<" *)
   let ne :=
-    if contains addr ["<"] && contains addr [">"] then
-      match index addr ["<"], index addr [">"] with
-      | Some st_, Some en =>
-          match slice addr (Z.of_nat st_ + 1) (Z.of_nat en) with
-          | Some email => Some (trim (trim_space (firstn st_ addr)) [DQ], email)
-          | None => None
-          end
-      | _, _ => None
-      end
-    else Some ([], addr) in
+    match index addr ["<"] with
+    | Some st_ =>
+        match index (skipn st_ addr) [">"] with
+        | Some e =>
+            match slice addr (Z.of_nat st_ + 1) (Z.of_nat (e + st_)) with
+            | Some email => Some (trim (trim_space (firstn st_ addr)) [DQ], email)
+            | None => None
+            end
+        | None => Some ([], addr)
+        end
+    | None => Some ([], addr)
+    end in
   match ne with
   | None => None
   | Some (name, email) =>
